@@ -45,13 +45,14 @@ Guids == {Guid1, Guid2} \cup Mut1(Guid1) \cup Mut1(Guid2)
 
 \* integer columns: type x nullability x declared range, values around every boundary
 Ranges == {<<>>, <<0, 9>>, <<-40000, 40000>>, <<MinI32, 0>>, <<-5, MaxI32>>}
-IntCols == {MkCol(Nm, ty, 0, nl, FALSE, FALSE, rg, <<>>, <<>>, <<>>) : ty \in {"i16", "i32"}, nl \in BOOLEAN, rg \in Ranges}
+\* (key columns too: a primary-key column may be nullable, and null is then a valid value of it)
+IntCols == {MkCol(Nm, ty, 0, nl, ky, FALSE, rg, <<>>, <<>>, <<>>) : ty \in {"i16", "i32"}, nl \in BOOLEAN, ky \in BOOLEAN, rg \in Ranges}
 IntVals == {Null, StrV(<<49>>), StrV(<<>>)} \cup
            {IntV(k) : k \in {MinI32, MinI32 + 1, -40001, -40000, -32769, -32768, -32767, -6, -5, -1, 0, 1, 9, 10,
                              32767, 32768, 40000, 40001, 65535, MaxI32 - 1, MaxI32}}
 \* string columns: width in characters (not bytes), enumerations, nullability
-WidthCols == {MkCol(Nm, "s", w, nl, FALSE, FALSE, <<>>, <<>>, <<>>, en) :
-                w \in {0, 1, 2, 3}, nl \in BOOLEAN, en \in {<<>>, <<<<97>>, <<233, 233>>>>}}
+WidthCols == {MkCol(Nm, "s", w, nl, ky, FALSE, <<>>, <<>>, <<>>, en) :
+                w \in {0, 1, 2, 3}, nl \in BOOLEAN, ky \in BOOLEAN, en \in {<<>>, <<<<97>>, <<233, 233>>>>}}
 WidthVals == {Null, IntV(1), StrV(<<>>), StrV(<<97>>), StrV(<<233>>), StrV(<<233, 233>>), StrV(<<128512, 128512>>),
               StrV(<<97, 98, 99>>), StrV(<<233, 233, 233>>), StrV(<<97, 98, 99, 100>>), StrV(<<128512, 233, 97, 98>>)}
 
